@@ -51,6 +51,36 @@ Fixpoint index_all (l : list oq) (idx : list Z) : res (list oq) :=
   | i :: t => match zget l i with Some x => rcons x (index_all l t) | None => Err end
   end.
 
+(* ---- numpy / float primitives of the code REGENERATED from naive.py (build/coq/C11/Gen.v, written
+   by translator/naive_c11.py on every run; Bridge.v proves the generated functions equal to the
+   model below).  Arrays are `list oq`, NaN = None. *)
+Definition np_full_nan (k : Z) : list oq := repeat None (Z.to_nat k).         (* np.full(k, np.nan) *)
+Definition np_hstack (a b : list oq) : list oq := a ++ b.
+Definition np_tile (a : list oq) (reps : Z) : list oq := tile (Z.to_nat reps) a.
+Definition np_repeat (x : oq) (k : Z) : list oq := repeat x (Z.to_nat k).
+Definition np_last (a : list oq) : oq := last a None.                        (* a[-1], a non-empty *)
+Definition np_first (a : list oq) : oq := hd None a.                         (* a[0],  a non-empty *)
+Definition np_all_isnan (a : list oq) : bool := all_nan a.                   (* np.all(np.isnan(a)) *)
+Definition np_any_isnan (a : list oq) : bool := existsb is_nan a.            (* np.any(np.isnan(a)) *)
+Definition np_ceil_div (a b : Z) : Z := ceil_div a b.                  (* int(np.ceil(a / b)), b > 0 *)
+Definition np_index (a : list oq) (idx : list Z) : res (list oq) := index_all a idx.   (* a[idx] *)
+(* a.reshape(-1, c): rows of c entries, ValueError unless len(a) is a multiple of c; the column
+   count is kept with the table *)
+Definition np_reshape_cols (a : list oq) (c : Z) : res (Z * list (list oq)) :=
+  let rows := zlen a / c in
+  if zlen a =? rows * c then Ok (c, chunks (Z.to_nat rows) (Z.to_nat c) a) else Err.
+Definition np_nanmean_axis0 (t : Z * list (list oq)) : list oq :=
+  map (fun j => nanmean (zcol j (snd t))) (zrange 0 (fst t) 1).
+(* float arithmetic with NaN propagation *)
+Definition sq_sub (a b : oq) : oq :=
+  match a, b with Some x, Some y => Some (x - y)%Q | _, _ => None end.
+Definition sq_divz (a : oq) (k : Z) : oq :=
+  match a with Some x => Some (x / inject_Z k)%Q | None => None end.
+Definition sq_scale_idx (idx : list Z) (s : oq) : list oq :=
+  map (fun i => match s with Some x => Some (inject_Z i * x)%Q | None => None end) idx.
+Definition sq_add_arr (b : oq) (a : list oq) : list oq :=
+  map (fun v => match b, v with Some x, Some y => Some (x + y)%Q | _, _ => None end) a.
+
 (* `if fh[-1] > sp: tile(ceil(fh[-1] / sp))`, then `[fh.to_indexer(cutoff)]` *)
 Definition steps_vals (vals : list oq) (sp : Z) (hs : list Z) : res (list oq) :=
   let fhmax := zlast hs in
